@@ -80,17 +80,24 @@ pub struct Item {
     pub tag: u32,
     pub halves: Vec<rch::mpsc::Sender<u8>>,
     pub data: Vec<u8>,
+    /// trailing bytes that are serialized after the payload but that the deserializer does not read (a newer
+    /// sender-side version of the type with a field the receiver does not know): the failure index of the
+    /// serializer counts on into this part
+    pub pad: usize,
 }
 
 impl Item {
     pub fn new(tag: u32, data: Vec<u8>) -> Self {
-        Self { tag, halves: Vec::new(), data }
+        Self { tag, halves: Vec::new(), data, pad: 0 }
     }
 }
 
 struct FailBytes<'a> {
     data: &'a [u8],
     fail: Option<usize>,
+    /// take a short real-time nap before writing this element (only used for the unread trailing part, so that
+    /// the receiving side has surely consumed everything written before)
+    nap_at: Option<usize>,
 }
 
 impl Serialize for FailBytes<'_> {
@@ -99,6 +106,9 @@ impl Serialize for FailBytes<'_> {
         for (i, b) in self.data.iter().enumerate() {
             if self.fail == Some(i) {
                 return Err(serde::ser::Error::custom("injected serialization failure"));
+            }
+            if self.nap_at == Some(i) {
+                std::thread::sleep(std::time::Duration::from_millis(4));
             }
             seq.serialize_element(b)?;
         }
@@ -111,10 +121,16 @@ impl Serialize for FailBytes<'_> {
 
 impl Serialize for Item {
     fn serialize<S: Serializer>(&self, s: S) -> Result<S::Ok, S::Error> {
-        let mut t = s.serialize_tuple(3)?;
+        let fail = ser_fail(self.tag);
+        let n = self.data.len();
+        let mut t = s.serialize_tuple(if self.pad > 0 { 4 } else { 3 })?;
         t.serialize_element(&self.tag)?;
         t.serialize_element(&self.halves)?;
-        t.serialize_element(&FailBytes { data: &self.data, fail: ser_fail(self.tag) })?;
+        t.serialize_element(&FailBytes { data: &self.data, fail: fail.filter(|i| *i <= n), nap_at: None })?;
+        if self.pad > 0 {
+            let zeros = vec![0u8; self.pad];
+            t.serialize_element(&FailBytes { data: &zeros, fail: fail.filter(|i| *i > n).map(|i| i - n - 1), nap_at: if self.pad >= 40 { Some(34) } else { None } })?;
+        }
         t.end()
     }
 }
@@ -165,7 +181,7 @@ impl<'de> Deserialize<'de> for Item {
                 let data = seq
                     .next_element_seed(BytesSeed { fail: de_fail(tag) })?
                     .ok_or_else(|| serde::de::Error::custom("payload missing"))?;
-                Ok(Item { tag, halves, data })
+                Ok(Item { tag, halves, data, pad: 0 })
             }
         }
         d.deserialize_tuple(3, V)
